@@ -138,7 +138,7 @@ def oracle_failures(o, orders, col_obs_equiv):
         add("C02", "order-dependent-without-overlap",
             "inference differs between enumeration orders of the same typeset: %s" % ps)
     # ---- C15: refinement (orders[0] = StandardSet ⊆ orders[1] = CompleteSet; orders[4] ⊆ CompleteSet) -----
-    for ia, ib in ((0, 1), (4, 1)):
+    for ia, ib in ((0, 1), (4, 1), (5, 1), (6, 1), (7, 1)):
         if ia < len(o["trav"]) and set(orders[ia]) <= set(orders[ib]):
             A = set(orders[ia])
             da, db = o["trav"][ia]["detect"], o["trav"][ib]["detect"]
